@@ -1010,7 +1010,8 @@ impl Formatter {
     fn format_literal(&mut self, lit: &Literal) {
         match lit {
             Literal::Int(n) => self.writer.write(&n.to_string()),
-            Literal::Float(f) => self.writer.write(&f.to_string()),
+            // `{:?}` keeps a fraction or an exponent (`1.0`, `1e300`), so the literal stays a float
+            Literal::Float(f) => self.writer.write(&format!("{:?}", f)),
             Literal::String(s) => {
                 self.writer.write("\"");
                 self.writer.write(&escape_string(s));
